@@ -314,7 +314,11 @@ func atomsOf(t *Term, pos bool) []string {
 }
 
 func isNilCheck(a string) bool {
-	return strings.HasPrefix(a, "eq(") && (strings.HasPrefix(a, "eq(nil, ") || strings.HasSuffix(a, ", nil)"))
+	if strings.HasPrefix(a, "eq(") && (strings.HasPrefix(a, "eq(nil, ") || strings.HasSuffix(a, ", nil)")) {
+		return true
+	}
+	// "the destination frame is not nil": a guard on a pointer parameter the caller always supplies
+	return strings.HasPrefix(a, "ne(nil, param") || (strings.HasPrefix(a, "ne(param") && strings.HasSuffix(a, ", nil)"))
 }
 
 // findParserSelector: the function of the recorder package that maps (brand, model) strings to a raw-frame
